@@ -804,6 +804,9 @@ pub struct Interp {
     pub burned: u32,
     /// the bystander transaction (engine session 250) is open
     pub bystander_open: bool,
+    /// per open session: tables whose schema / rows were changed by transactions that committed while the session
+    /// was open (its snapshot predates them)
+    pub committed_beside: BTreeMap<u8, (BTreeSet<String>, BTreeSet<String>)>,
     /// sessions in which a statement failed after writing rows: not asserted any more, rolled back at their end
     pub doomed: BTreeSet<u8>,
 }
@@ -850,6 +853,7 @@ impl Interp {
             allow_flush_with_open_writer: false,
             burned: 0,
             bystander_open: false,
+            committed_beside: BTreeMap::new(),
             doomed: BTreeSet::new(),
         })
     }
@@ -1298,6 +1302,7 @@ impl Interp {
                     return Some(self.fail("begin_failed", e.text()));
                 }
                 self.txns.insert(*s, self.model.begin());
+                self.committed_beside.remove(s);
                 self.sess_reads.insert(*s, (0, false));
                 if self.txns.len() > 1 {
                     self.tags.insert("txn.concurrent".into());
@@ -1374,6 +1379,24 @@ impl Interp {
                         tags.push("stmt.while_uncommitted_ddl_open".into());
                     }
                 }
+                if let Some((ddl, wr)) = self.committed_beside.get(s) {
+                    // a transaction that was open when this one began has committed since
+                    let mine = stmt_table(&stmt);
+                    if mine.as_ref().map(|t| ddl.contains(t)).unwrap_or(!ddl.is_empty()) {
+                        // (its schema change is seen by this older snapshot too: same finding as uncommitted DDL)
+                        tags.push("stmt.while_uncommitted_ddl_open".into());
+                    }
+                    if let Some(t) = &mine {
+                        if wr.contains(t) && txn.view.tables.get(t).map(|tb| !tb.def.uniques.is_empty()).unwrap_or(false) {
+                            if matches!(stmt, Stmt::Insert { .. }) {
+                                tags.push("insert.unique_concurrent".into());
+                            }
+                            if matches!(stmt, Stmt::Update { .. }) {
+                                tags.push("update.concurrent".into());
+                            }
+                        }
+                    }
+                }
                 if (self.txns.len() > 1 || self.model.epoch > txn.begin_epoch) && tags.iter().any(|t| t.starts_with("ddl.")) {
                     // DDL in one session while another is open (the other session's snapshot must not change), or
                     // on a snapshot that is no longer the latest committed state
@@ -1401,6 +1424,10 @@ impl Interp {
                     // (its own effects so far plus the partial insert) may be excluded by another finding
                     let mut end_tags: Vec<String> = vec!["txn.rollback".into(), "txn.drop_session".into(), "txn.noncommit_after_insert".into()];
                     end_tags.extend(self.noncommit_tags(&txn.effects));
+                    if tags.iter().any(|t| t == "unique.reinsert_of_key_deleted_in_same_txn") {
+                        // the failing statement itself writes such a key again before it fails
+                        end_tags.push("txn.noncommit_after_reinsert_of_deleted_key".into());
+                    }
                     let may_roll_back = !end_tags.iter().any(|t| self.excluded.contains_key(t)) && matches!(stmt, Stmt::Insert { .. });
                     if may_roll_back && tags.contains(&doom_tag) && self.excluded.contains_key(&doom_tag) && !others.iter().any(|t| self.excluded.contains_key(t)) {
                         self.trace(format!("[{i}] s{s}: {sql}   -- fails half-way; session {s} will be rolled back"));
@@ -1515,6 +1542,23 @@ impl Interp {
                         if txn.wrote {
                             self.note_foreign_end(Some(*s));
                         }
+                        // the sessions still open began before this commit: remember what it changed beside them
+                        let mut ddl: BTreeSet<String> = BTreeSet::new();
+                        let mut wr: BTreeSet<String> = BTreeSet::new();
+                        for e in &txn.effects {
+                            match e {
+                                Effect::Create(d) => { ddl.insert(d.name.clone()); }
+                                Effect::Drop(t) => { ddl.insert(t.clone()); }
+                                Effect::AddUnique { table, .. } | Effect::AddColumn { table, .. } | Effect::DropColumn { table, .. } | Effect::AlterCol { table, .. } => { ddl.insert(table.clone()); }
+                                Effect::Insert { table, .. } | Effect::Update { table, .. } | Effect::Delete { table, .. } => { wr.insert(table.clone()); }
+                            }
+                        }
+                        for o in self.txns.keys() {
+                            let e = self.committed_beside.entry(*o).or_default();
+                            e.0.extend(ddl.iter().cloned());
+                            e.1.extend(wr.iter().cloned());
+                        }
+                        self.committed_beside.remove(s);
                         self.model.commit(txn);
                     }
                     Err(dbx::Err::Panic(p)) => return Some(self.fail("panic", format!("COMMIT: {p}"))),
@@ -1532,6 +1576,7 @@ impl Interp {
             }
             Step::Rollback(s) | Step::DropSession(s) => {
                 let Some(txn) = self.txns.remove(s) else { return None };
+                self.committed_beside.remove(s);
                 let was_doomed = self.doomed.remove(s);
                 let is_drop = matches!(st, Step::DropSession(_));
                 let mut tags = vec![if is_drop { "txn.drop_session".to_string() } else { "txn.rollback".to_string() }];
